@@ -19,7 +19,7 @@ from harness.core import VERIF, Ctx, cbool, clist, cz, guarded, pmap
 ANCHORS = ["solvor/sat.py"]
 IMPORTS = "From SV Require Import C01.SatSpec C01.Rup C01.Machine."
 CASE_TYPE = "(cnf * list Z * Z) * (list event * result)"
-CHK_TRACE = "fun c => trace_ok (fst (fst (fst c))) (snd (fst (fst c))) (snd (fst c)) (fst (snd c)) (snd (snd c))"
+CHK_TRACE = "fun c => trace_ok CHKFLAG (fst (fst (fst c))) (snd (fst (fst c))) (snd (fst c)) (fst (snd c)) (snd (snd c))"
 CHK_SPEC = "fun c => spec_check (fst (fst (fst c))) (snd (fst (fst c))) (snd (snd c))"
 DEFAULT_KW = {"solution_limit": 1, "luby_factor": 100, "max_conflicts": 100_000, "max_restarts": 10_000}
 
@@ -28,7 +28,11 @@ DEFAULT_KW = {"solution_limit": 1, "luby_factor": 100, "max_conflicts": 100_000,
 def mk(clauses, assumptions=(), family="", **kw):
     k = dict(DEFAULT_KW)
     k.update(kw)
-    return {"clauses": [list(c) for c in clauses], "assumptions": list(assumptions), "kw": k, "family": family}
+    t = k.pop("timeout", None)  # per-case time guard (seconds) for the few deliberately heavy corpus cases
+    case = {"clauses": [list(c) for c in clauses], "assumptions": list(assumptions), "kw": k, "family": family}
+    if t:
+        case["timeout"] = t
+    return case
 
 
 def n_vars_of(clauses):
@@ -243,6 +247,7 @@ def run_impl(case, timeout=5):
     S._VERIF_TRACE = []
     kw = dict(case["kw"])
     t0 = time.time()
+    timeout = max(timeout, case.get("timeout", 0))
     res = guarded(S.solve_sat, [list(c) for c in case["clauses"]], assumptions=list(case["assumptions"]) or None, timeout=timeout, **kw)
     dt = time.time() - t0
     trace = S._VERIF_TRACE or []
@@ -378,10 +383,12 @@ def judge_c01(case, out, truth):
             return f"returned assignment {m} is not in the truth table of the formula"
     sols = out.get("solutions")
     if sols is not None:
-        for i in range(len(sols)):
-            for j in range(i + 1, len(sols)):
-                if sols[i] == sols[j]:
-                    return f"solutions[{i}] == solutions[{j}] == {sols[i]}"
+        seen = {}
+        for i, sl in enumerate(sols):
+            key = tuple(sorted(sl.items()))
+            if key in seen:
+                return f"solutions[{seen[key]}] == solutions[{i}] == {sl}"
+            seen[key] = i
     return None
 
 
@@ -501,21 +508,11 @@ def load_corpus(pid):
                 o = json.loads(f.read_text())
                 if "clauses" not in o or o.get("kind") == "data":
                     continue
-                out.append(mk(o["clauses"], o.get("assumptions", []), "corpus:" + f.stem, **o.get("kw", {})))
+                kw = dict(o.get("kw", {}))
+                if o.get("timeout"):
+                    kw["timeout"] = o["timeout"]
+                out.append(mk(o["clauses"], o.get("assumptions", []), "corpus:" + f.stem, **kw))
     return out
-
-
-def event_property(e):
-    """which property a rejected event belongs to"""
-    if e is None:
-        return "C01"  # all events accepted but result_of differs from the returned Result
-    if e[0] == "solution" or (e[0] == "learn" and e[2]):
-        return "C01"
-    if e[0] == "init":
-        return "both"
-    if e[0] == "verdict" and e[1] == "OPTIMAL":
-        return "both"
-    return "C02"
 
 
 # ------------------------------------------------------------------------------------------- engine
@@ -541,6 +538,16 @@ def run_engine(ctx: Ctx, pid: str):
         rand_cases = rand_cases[:60]
     outs += pmap(run_impl, rand_cases)
     cases = cases + rand_cases
+    # a 5 s expiry on a loaded machine is re-tried once with 20 s before it counts as "does not return"
+    retried = 0
+    for i, o in enumerate(outs):
+        if o["outcome"] == "hang" and retried < 3:
+            retried += 1
+            o2 = run_impl(cases[i], 20)
+            if o2["outcome"] != "hang":
+                ctx.count("slow_but_returned", f"{o2['time']}s")
+                outs[i] = o2
+    ctx.extra["slowest_call_s"] = max((o["time"] for o in outs), default=0)
     coq_cases, coq_meta = [], []
     skipped_long = 0
     first_bad = None
@@ -608,7 +615,9 @@ def run_engine(ctx: Ctx, pid: str):
         coq_meta.append((case, out))
     ctx.count("trace_replay", "skipped-too-long", skipped_long)
 
-    failing = ctx.coq_check("trace", IMPORTS, CASE_TYPE, CHK_TRACE, coq_cases, shard=25, timeout=900)
+    # C01 replays with the RUP guards switched off (its theorems hold for that machine too); C02 with the full machine
+    flag = "false" if pid == "C01" else "true"
+    failing = ctx.coq_check("trace", IMPORTS, CASE_TYPE, CHK_TRACE.replace("CHKFLAG", flag), coq_cases, shard=25, timeout=900)
     ctx.traces_validated += len(coq_cases) - len(failing)
     ctx.count("trace_replay", "accepted", len(coq_cases) - len(failing))
     spec_fail = []
@@ -621,20 +630,20 @@ def run_engine(ctx: Ctx, pid: str):
                     "clauses": case["clauses"], "assumptions": case["assumptions"], "kw": case["kw"],
                     "observed": {k: out.get(k) for k in ("status", "solution", "solutions")}})
 
-    # ---- rejected traces: name the rejected event; attribute to the property it belongs to
+    # ---- rejected traces: name the rejected event
     mine = []
     for i in failing:
         case, out = coq_meta[i]
         txt = ctx.coq_eval(f"reject_{i}", IMPORTS,
-                           f"first_reject {clist(case['clauses'], lambda c: clist(c, cz))} {clist(case['assumptions'], cz)} "
+                           f"first_reject {flag} {clist(case['clauses'], lambda c: clist(c, cz))} {clist(case['assumptions'], cz)} "
                            f"{cz(case['kw']['solution_limit'])} {clist(out['trace'], c_event)}")
         m = re.search(r"Some\s+(\d+)", txt)
         idx = int(m.group(1)) if m else None
         ev = out["trace"][idx] if idx is not None and idx < len(out["trace"]) else None
-        owner = event_property(ev)
-        ctx.count("trace_replay", f"rejected({owner})")
-        if owner in (pid, "both"):
-            mine.append((case, out, idx, ev))
+        ctx.count("trace_replay", "rejected")
+        mine.append((case, out, idx, ev))
+        if len(mine) >= 3:
+            break
 
     if (mine or ctx.broken) and not ctx.violations:
         # search harder for a failing input with the independent oracle
